@@ -26,7 +26,13 @@ THEOREMS = [NS + t for t in [
     "C10_counterexample_union_default_dropped_in_go", "C10_counterexample_inline_enum_default_dropped_in_go",
     "C10_counterexample_nested_override", "C10_counterexample_struct_default_enum_member",
     "C10_counterexample_python_enum_ref_override_ignored", "C10_counterexample_samekind_union_zero_default",
-]]
+    # defaults / constants through the FRONT-ENDS (c01-front builder; block at the end of Props/C10.lean)
+    "FE.C10_jsonschema_default_go_end_to_end_partial", "FE.C10_jsonschema_default_py_end_to_end_partial",
+    "FE.C10_jsonschema_default_end_to_end_partial", "FE.srcField_declares", "FE.C10_jsonschema_default_counterexample",
+    "OA.C10_openapi_default_go_end_to_end_partial", "OA.C10_openapi_default_py_end_to_end_partial",
+    "OA.C10_openapi_default_end_to_end_partial",
+]] + ["Cog.Front.JsonSchema.keeps_property", "Cog.Front.OpenApi.keeps_property", "Cog.Front.JsonSchema.chain_struct",
+      "Cog.Front.JsonSchema.pyChain_exact"]
 FILES = HARNESS_BASE + ["lab_*.go", "src_*.go", "c10_*.go"]
 STATS = collections.Counter()
 
@@ -163,6 +169,29 @@ def fits_census(c, rows):
     return census
 
 
+
+# ---- BEGIN front-end keeps tie (owner: c01-front builder; verifkit/front_keeps.py) ------------------
+def front_keeps_tie(c):
+    """instances of keeps_property and of C10_{jsonschema,openapi}_default_{go,py}_end_to_end_partial on the REAL front-end IR"""
+    from verifkit import front_keeps
+    stats, bad, err = front_keeps.run(c)
+    c.oblige("front-end keeps streams run (c01-front, c01-front-oa)", err is None, err or "")
+    if err is not None:
+        return
+    for b in [b for b in bad if b["verb"].endswith("keeps")][:3]:
+        c.violation(dict(b, kind="front-end-keeps-instance-fails",
+                         broken="keeps_property / C10_*_default_*_end_to_end_partial: a typed scalar property of the source is not the field `scalarOf …` of the REAL front-end IR, or a fitting default / constant is not held by the constructor model on the pass models' output of the real IR"))
+    for stream, key in (("c01-front", "JSON Schema"), ("c01-front-oa", "OpenAPI")):
+        st = stats.get(stream, {})
+        g = lambda k: st.get("keeps." + k, 0)
+        c.oblige("%s: every typed scalar property of every object definition is kept by the REAL front-end (type `scalarOf`, required): %d properties of %d objects, %d with a default, %d constants" % (key, g("props"), g("objs"), g("dflt"), g("const")),
+                 g("kept") == g("props") and st.get("bad_replies", 0) == 0 and g("props") >= 200 and g("dflt") >= 20)
+        c.oblige("%s: C10 default end-to-end instances on the real front-end IR hold (Go %d/%d, Python %d/%d)" % (key, g("goHold"), g("goInst"), g("pyHold"), g("pyInst")),
+                 g("goHold") == g("goInst") and g("pyHold") == g("pyInst") and g("goInst") + g("pyInst") >= 8)
+        c.cov["front_keeps_" + stream] = {k: v for k, v in st.items() if k.startswith("keeps.") or k == "bad_replies"}
+# ---- END front-end keeps tie ------------------------------------------------------------------------
+
+
 def main():
     global KNOWN_IDS
     c = Check("C10")
@@ -257,6 +286,7 @@ def main():
     c.cov["model"] = dict(STATS)
     c.cov["distribution"] = [r[1] for r in all_rows if r[0] == "-" and r[1].startswith("distribution")][:4]
     c.cov["lab"] = [r[1] for r in all_rows if r[0] == "-" and r[1].startswith("stats")][:4]
+    front_keeps_tie(c)   # defaults / constants through the front-ends (JSON Schema, OpenAPI): instances on the real IR
     c.finish("cd /verif/lean && lake build Cog.Props.C10 drv && lake env lean <#print axioms of the C10 theorems>",
              "Src terms with defaults of every value type (bool, int, float, string, enum member inline and by reference, list, struct with partial overrides inline and by reference, union branch; optional / required / nullable members; constants) rendered to JSON Schema, OpenAPI and CUE; real pipeline; generated Go compiled, generated Python imported; NewX() / X() of every object encoded; oracle = every member the SOURCE declares with a default/constant holds exactly that value (canonical JSON, numbers exact) in both; Lean models godefaults/pydefaults must predict the JSON and whether the package compiles / the module imports; non-trivial = constructor JSON with >= 3 members")
 
